@@ -15,7 +15,7 @@ RULE = ('random sets of 1..6 trajectories of mutually different lengths (includi
         'the lag); for each set the implementation is run on the set, on a permutation, on every single '
         'trajectory and on a cut of one trajectory; thorough: all permutations for <= 4 trajectories and '
         'all cut positions. Checked: T / implied timescales / CK curves invariant under permutation '
-        '(T bit-exact, others 1e-12); cored trajectories, waiting times and pathway events are the '
+        '(T and others within 1e-12); cored trajectories, waiting times and pathway events are the '
         'concatenation of the per-trajectory results and permute accordingly; T of the set and of the cut '
         'set equal the exact model (count matrices differ exactly by the straddling pairs). '
         'Non-trivial: >= 2 trajectories of different lengths.')
@@ -199,8 +199,7 @@ def judge(case, ibc, answers):
         # model comparison for the set and the cut set
         for tag, ans, rr in (('set', answers[0], b['emm']), ('cut set', answers[1], r['cut']['emm'])):
             model, st, Cm = c01.decode(ans)
-            exp = [float(x).hex() for row in c01.expected_T(Cm) for x in row]
-            if 'err' in rr or rr['st'] != st or [v for v in rr['T']] != exp:
+            if 'err' in rr or rr['st'] != st or not C.hexes_close(rr['T'], c01.expected_T(Cm)):
                 P('impl-vs-spec', 'T of the %s differs from the row-normalised in-trajectory counts' % tag)
         # counts differ exactly by the straddling pairs
         _, st0, C0 = c01.decode(answers[0])
